@@ -18,6 +18,10 @@ is equal in C and C'; every environment used or defined, the status section and 
 are equal.  Differences are reported per leaf, so one recorded finding does not hide another.
 Coverage: every option key of the legacy format must have been written (seen in the files) with a
 non-default value.
+Environment names are generated structurally (gen_env_name): among others names that embed the format's own
+section prefix ENV- (any case; at the start, inside, at the end, repeated), reserved section names as parts of
+longer names, names spelled with the prefix's characters only; floors demand that such names were round-tripped
+and that components used them.
 """
 import configparser
 import copy
@@ -98,6 +102,61 @@ _VARNAMES = ['gv', 'sv', 'cv', 'n', 'nsteps', 'my-var', 'my_var2', 'MixedCase', 
              'stage-name', 'release', 'b', 'CV']
 _COMPNAMES = ['gen', 'Sim', 'post-proc', 'a.b', 'comp2', 'X', 'lower_case', 'CamelCase', 'z-9', 'run.1', 'collect',
               'Meta2', 'default-x']
+
+
+# Environment names.  The legacy format stores the environment <name> as the section [ENV-<NAME>] of
+# experiment.instance.conf (experiment[.<platform>].conf for packages) and reserves the section names SANDBOX and
+# ENVIRONMENT.  Hostile direction: names that contain the format's own markers - the section prefix in any case
+# at the start / inside / at the end of the name, once or repeated; the reserved words as part of a longer name -,
+# names spelled only with the characters of the prefix, mixed case, and the usual punctuation.
+ENV_SECTION_PREFIX = 'ENV-'
+_ENV_MARKERS = [ENV_SECTION_PREFIX.lower(), ENV_SECTION_PREFIX, ENV_SECTION_PREFIX.capitalize()]
+_ENV_WORDS = ['gpu', 'conda', 'py', 'ml', 'mpi', 'gnu.8', 'x', '3', 'lib_2', 'v', 'Intel', 'my', 'python']
+_ENV_RESERVED = ['sandbox', 'environment', 'default', 'meta']
+_ENV_SHAPES = ['plain', 'plain', 'plain', 'word-env', 'marker-inside', 'marker-inside', 'marker-glued',
+               'marker-start', 'marker-twice', 'marker-end', 'marker-only', 'prefix-chars', 'reserved-part']
+
+
+def gen_env_name(r):
+    """(name, shape).  Shapes whose name starts with 'marker' embed the section prefix in the name itself."""
+    shape = r.choice(_ENV_SHAPES)
+    w1, w2 = r.choice(_ENV_WORDS), r.choice(_ENV_WORDS)
+    mk = r.choice(_ENV_MARKERS)
+    sep = r.choice(['-', '-', '.', '_'])
+    if shape == 'plain':
+        name = r.choice([w1, w1 + sep + w2, w1 + '_2', (w1 + sep + w2).upper()])
+    elif shape == 'word-env':          # contains the prefix's letters but not the prefix
+        name = r.choice([w1 + sep + mk[:3], mk[:3] + '_' + w1, mk[:3] + w1, mk[:3]])
+    elif shape == 'marker-inside':     # e.g. <word>-env-<word>
+        name = w1 + sep + mk + w2
+    elif shape == 'marker-glued':      # the prefix continues a word, e.g. <letter>env-<word>
+        name = r.choice(['v', 'py', 'x', 'my']) + mk + w2
+    elif shape == 'marker-start':      # the section becomes [ENV-ENV-...]
+        name = mk + w1
+    elif shape == 'marker-twice':
+        name = r.choice([mk + r.choice(_ENV_MARKERS) + w1, mk + w1 + sep + r.choice(_ENV_MARKERS) + w2,
+                         w1 + sep + mk + w2 + '-' + r.choice(_ENV_MARKERS) + w1])
+    elif shape == 'marker-end':
+        name = r.choice([w1 + sep + mk, w1 + mk])
+    elif shape == 'marker-only':
+        name = r.choice([mk, mk + mk])
+    elif shape == 'prefix-chars':      # only characters of the prefix (char-set stripping would eat them)
+        name = r.choice(['venv', 'nve', 'even', 'vee-n', 'n-e-v', 'e', 'nv', '-ven'])
+    else:                              # a reserved section name as part of a longer name
+        word = r.choice(_ENV_RESERVED)
+        name = r.choice([word + sep + w1, w1 + sep + word, word + '2', word.upper() + sep + w1])
+    return name, shape
+
+
+def env_name_class(name):
+    """Where the text of the section prefix occurs in an environment name (case-insensitive): a subset of
+    {start, inside, end}; empty when the name does not contain it."""
+    low, mk = name.lower(), ENV_SECTION_PREFIX.lower()
+    out, i = set(), low.find(mk)
+    while i >= 0:
+        out.add('start' if i == 0 else 'end' if i + len(mk) == len(low) else 'inside')
+        i = low.find(mk, i + 1)
+    return out
 
 
 def _set(d, path, value):
@@ -193,8 +252,10 @@ def gen_doc(r, force_paths=()):
             if d:
                 svars[s] = d
     envs = {}
-    for _ in range(r.choice([0, 1, 1, 2])):
-        name = r.choice(['myenv', 'mpi', 'python-env', 'env_2', 'gnu.8'])
+    for _ in range(r.choice([0, 1, 1, 2, 3])):
+        name, _shape = gen_env_name(r)
+        if name.lower() in {n.lower() for n in envs}:
+            continue  # environment names are not case sensitive: one section per name
         envs[name] = {k: r.choice(['/opt/bin:$PATH', '1', 'a b', '$LD_LIBRARY_PATH:/x/lib', 'VALUE=with=eq', ''])
                       for k in r.sample(['PATH', 'OMP_NUM_THREADS', 'LD_LIBRARY_PATH', 'MY_VAR', 'lower_var', 'DEFAULTS'][:5],
                                         r.randint(1, 3))}
@@ -237,6 +298,10 @@ def gen_doc(r, force_paths=()):
                 _set(comp, 'resourceManager.kubernetes.image', 'reg.io/default/img:latest')
             if 'command.interpreter' in chosen or r.random() < 0.05:
                 comp['command']['interpreter'] = 'bash'
+            if envs and r.random() < 0.3:
+                # components use the declared environments (spelled in any case: names are not case sensitive)
+                n = r.choice(sorted(envs))
+                comp['command']['environment'] = r.choice([n, n, n.upper(), n.lower()])
             if r.random() < 0.25:
                 comp.setdefault('executors', {})['pre'] = [{'name': 'lsf-dm-in', 'payload': r.choice(['all', 'a.txt b.txt', 'dir/*'])}]
             if r.random() < 0.25:
@@ -548,7 +613,8 @@ def judge_doc(doc, platform, route, w, scratch_root):
     w.distinct('|'.join([route, platform != 'default' and 'P' or 'D',
                          str(len({c['stage'] for c in doc['components']})),
                          'S' if doc.get('status-report') else '-', 'O' if doc.get('output') else '-',
-                         'E' if doc.get('environments') else '-', scopes, ','.join(backends), ','.join(sorted(groups))]))
+                         'E' + ''.join(sorted({c[0] for n in doc.get('environments', {}).get('default', {})
+                                               for c in env_name_class(n)})) if doc.get('environments') else '-', scopes, ','.join(backends), ','.join(sorted(groups))]))
     nviol = 0
 
     def report(area, comp, path, va, vb):
@@ -572,7 +638,26 @@ def judge_doc(doc, platform, route, w, scratch_root):
         for path, va, vb in leaf_diff(before['components'][comp], after['components'][comp]):
             report('component', comp, path, va, vb)
     w.count('clause_environments', len(before['environments']))
-    for path, va, vb in leaf_diff(before['environments'], after['environments']):
+    # environments clause, names: the loaded instance has exactly the environments that were written (names are
+    # not case sensitive; snapshot() lower-cases them).  Counted per class of name so that the floors can demand
+    # that names embedding the format's own section prefix were actually round-tripped.
+    for n in before['environments']:
+        cls = env_name_class(n)
+        if cls:
+            w.count('clause_env_name_embeds_section_prefix')
+        for c in sorted(cls):
+            w.count('clause_env_name_prefix_at_' + c)
+        if before['environments'][n] != 'ERROR FlowIREnvironmentUnknown' and any(
+                (comp_conf.get('command', {}).get('environment') or '').lower() == n
+                for comp_conf in before['components'].values()):
+            w.count('clause_env_used_by_component')
+            if cls:
+                w.count('clause_env_embedding_prefix_used_by_component')
+    if sorted(before['environments']) != sorted(after['environments']):
+        report('environments', None, 'names', sorted(before['environments']), sorted(after['environments']))
+    common = set(before['environments']) & set(after['environments'])  # contents: of the environments on both sides
+    for path, va, vb in leaf_diff({n: before['environments'][n] for n in common},
+                                  {n: after['environments'][n] for n in common}):
         report('environments', None, path, va, vb)
     w.count('clause_status')
     for path, va, vb in leaf_diff(drop_empty(before['status']), drop_empty(after['status'])):
@@ -623,7 +708,7 @@ def main():
                    rule="generated FlowIR documents restricted to the legacy format; one evaluation = one document "
                         "through a full write/load round trip with every component, environment, status and output "
                         "entry compared; distinct = distinct structural classes (route, platform used, #stages, "
-                        "status/output/environment sections present, variable scopes used, set of backends, set of option "
+                        "status/output/environment sections present [environments: plus where a name embeds the section prefix: s(tart)/i(nside)/e(nd)], variable scopes used, set of backends, set of option "
                         "groups [cmd, wf, memo, opt, lsf, k8s, req, exec] set to non-default values and found in the files)",
                    assumptions=[
                        "documents use only what the legacy format has a key for: no resourceManager.docker, kubernetes "
@@ -636,6 +721,9 @@ def main():
                        "include_default=True, is_primitive=True); raw spellings (e.g. memory '2Gi' vs bytes) are not compared",
                        "stage weights are two-decimal and sum to one (weight normalisation is C20's subject)",
                        "application dependencies and virtual environments are written but not compared (not in the statement)",
+                       "environment names are compared case-insensitively (the format upper-cases section names, FlowIR "
+                       "lower-cases environment names); within one document they are distinct case-insensitively; the "
+                       "reserved section names SANDBOX / ENVIRONMENT are only used as parts of longer names",
                    ])
     rp = vlib.load_replay(sys.argv)
     if rp is not None:
@@ -656,6 +744,11 @@ def main():
     c.floor('route_B', 40 if c.tier == 'quick' else 1000)
     c.floor('clause_component', 600 if c.tier == 'quick' else 16000)
     c.floor('clause_status', 300 if c.tier == 'quick' else 8000)
+    c.floor('clause_environments', 300 if c.tier == 'quick' else 8000)
+    c.floor('clause_env_name_embeds_section_prefix', 60 if c.tier == 'quick' else 1500)
+    for pos in ('start', 'inside', 'end'):
+        c.floor('clause_env_name_prefix_at_' + pos, 10 if c.tier == 'quick' else 250)
+    c.floor('clause_env_embedding_prefix_used_by_component', 15 if c.tier == 'quick' else 400)
     for k in LEGACY_KEYS:
         c.floor('opt_' + k, 5 if c.tier == 'quick' else 100)
     covered = [k for k in LEGACY_KEYS if c.counters.get('opt_' + k, 0) > 0]
